@@ -365,6 +365,21 @@ impl<'a> Model<'a> {
                         break;
                     }
                     let (base, what) = if name.starts_with("state") { (&state_obs, "state") } else { (&fresh_obs, "fresh") };
+                    // a warmed CLONE against the router it was cloned from: also the order of the results and the elected route
+                    if !name.starts_with("new") {
+                        let base_router: &Router<Rule> = if name.starts_with("state") { &s.router } else { fresh };
+                        let (ob, oc) = (observe_ordered(base_router, &req), observe_ordered(r, &req));
+                        if ob != oc {
+                            self.report(
+                                s,
+                                "cache-changes-result-order",
+                                what,
+                                format!("{name} returns {oc} for {probe:?}; the router it was cloned from returns {ob}"),
+                                Some(idx),
+                            );
+                            break;
+                        }
+                    }
                     if &o != base {
                         self.report(
                             s,
@@ -550,6 +565,14 @@ pub fn observe(router: &Router<Rule>, req: &redirectionio::http::Request) -> Str
     let traces = router.trace_request(req);
     let tj = serde_json::to_value(&traces).unwrap_or(Value::Null);
     format!("{}|{}", parts.join(","), canon_json(&tj))
+}
+
+/// ORDERED observation: the list match_request returns as it comes, and the route get_route elects. Only comparable between a
+/// router and a clone of it (a clone keeps the layout of every hash map, hence its iteration order; trees keep their Vec order).
+pub fn observe_ordered(router: &Router<Rule>, req: &redirectionio::http::Request) -> String {
+    let ids: Vec<String> = router.match_request(req).iter().map(|r| r.id().to_string()).collect();
+    let elected = router.get_route(req).map(|r| r.id().to_string());
+    format!("{ids:?} elected {elected:?}")
 }
 
 pub fn answers_part(obs: &str) -> &str {
